@@ -25,7 +25,8 @@ Record observed := {
   o_keys_st : Z; o_keys : list (list Z);
   o_norm_st : Z; o_norm : Q;
   o_sv_st : Z; o_sv : list (Q * Q);
-  o_marg : list (list nat * Z * list (list Z) * list Q)
+  o_marg : list (list nat * Z * list (list Z) * list Q);
+  o_T : list (list (Q * Q))
 }.
 
 Record case := {
@@ -33,6 +34,12 @@ Record case := {
   c_s : list Z; c_ov : overlap;
   c_steps : list (list nat * list Z); c_cutoff0 : Z; c_lossy : bool;
   c_obs : observed
+}.
+
+(* a case given as an instruction sequence: the matrices are computed by the model *)
+Record seqcase := {
+  s_d : nat; s_s : list Z; s_ov : overlap; s_seq : list step; s_cutoff0 : Z; s_lossy : bool;
+  s_obs : observed
 }.
 
 Definition ov_gram (ov : overlap) (n : nat) : list (list Zi) * Z :=
@@ -54,12 +61,20 @@ Definition flag (b : bool) (code : Z) : list Z := if b then [] else [code].
    10 repaired coefficient-extraction formula differs from the reference (exact);
    21 / 22 / 23 single / table / norm (= sum of the table) differ from the reference but equal
    the formula as coded;
-   31 rows handed to the probability routine are not aligned with the table keys *)
-Definition check_case (c : case) : list Z :=
-  let o := c_obs c in
-  let N := c_N c in let D := c_D c in let d := c_d c in let nl := c_nloss c in
-  let s := c_s c in let ov := c_ov c in
-  let '(dct, cutoff) := set_postselections d [] (c_cutoff0 c) (c_steps c) in
+   31 rows handed to the probability routine are not aligned with the table keys;
+   32 the interferometer / transmission matrix held by the state *)
+Definition close_zi (D : Z) (m : Zi) (i : Q * Q) : bool :=
+  close (inject_Z (fst m) / inject_Z D)%Q (fst i) && close (inject_Z (snd m) / inject_Z D)%Q (snd i).
+Fixpoint all2 {X Y} (f : X -> Y -> bool) (a : list X) (b : list Y) : bool :=
+  match a, b with
+  | [], [] => true
+  | x :: r, y :: r' => f x y && all2 f r r'
+  | _, _ => false
+  end.
+
+Definition check_core (N : list (list Zi)) (D : Z) (d nl : nat) (s : list Z) (ov : overlap)
+           (dct : psdict) (cutoff : Z) (lossy : bool) (o : observed) : list Z :=
+  let c_lossy := fun _ : unit => lossy in let c := tt in
   let keys := table_keys d dct cutoff in
   let ref := ref_table N D d nl ov s dct cutoff in
   let n := Z.to_nat (sumZ s) in
@@ -137,6 +152,19 @@ Definition check_case (c : case) : list Z :=
   flag (list_eqb Qeq_bool repaired ref) 10 ++
   flag (match fock_probabilities_rows d dct cutoff with
         | Some rows => zll_eqb rows fulls
-        | None => false end) 31.
+        | None => false end) 31 ++
+  flag (all2 (all2 (close_zi D)) (firstn d N) (o_T o)) 32.
+
+Definition check_case (c : case) : list Z :=
+  let '(dct, cutoff) := set_postselections (c_d c) [] (c_cutoff0 c) (c_steps c) in
+  check_core (c_N c) (c_D c) (c_d c) (c_nloss c) (c_s c) (c_ov c) dct cutoff (c_lossy c) (c_obs c).
+
+(* sequence case: transmission rows, loss rows, dictionary and cutoff all come from the model
+   of the instruction sequence *)
+Definition check_seq (c : seqcase) : list Z :=
+  let st := run_sequence (s_d c) (s_cutoff0 c) (s_seq c) in
+  check_core (q_T st ++ q_L st) (q_D st) (s_d c) (length (q_L st)) (s_s c) (s_ov c)
+             (q_dct st) (q_cutoff st) (s_lossy c) (s_obs c).
 
 Definition run_cases (l : list case) : list (list Z) := map check_case l.
+Definition run_seqcases (l : list seqcase) : list (list Z) := map check_seq l.
